@@ -120,6 +120,10 @@ var exoticNums = []numForm{
 	{"0", 0}, {"-0", math.Copysign(0, -1)}, {"+1", 1}, {"1e3", 1000}, {"1E3", 1000}, {"1e-3", 0.001}, {".5", 0.5}, {"5.", 5},
 	{"0x1p-2", 0.25}, {"0X1P+4", 16}, {"0x1.8p1", 3}, {"1e308", 1e308}, {"-1e308", -1e308}, {"4.9e-324", 4.9e-324},
 	{"9007199254740993", 9007199254740992}, {"0.1", 0.1}, {"00012", 12}, {"-00.50", -0.5}, {"1e400", math.Inf(1)}, {"-1e400", math.Inf(-1)},
+	// plain digit strings at and beyond the 64-bit integer boundaries (a value is a decimal float, not an integer)
+	{"18446744073709551615", 18446744073709551615.0}, {"18446744073709551616", 18446744073709551616.0}, {"99999999999999999999", 1e20},
+	{"-18446744073709551616", -18446744073709551616.0}, {"9223372036854775808", 9223372036854775808.0}, {"340282366920938463463374607431768211456", 340282366920938463463374607431768211456.0},
+	{"00000000000000000000000042", 42}, {"4294967296", 4294967296},
 	{"inf", math.Inf(1)}, {"-Inf", math.Inf(-1)}, {"+INF", math.Inf(1)}, {"Infinity", math.Inf(1)}, {"-infinity", math.Inf(-1)}, {"0x_1p0", 1},
 }
 
